@@ -209,27 +209,33 @@ func isFreshSliceCopy(fset *token.FileSet, e ast.Expr, recv, field string) bool 
 	return flat(fset, ce.Args[1]) == recv+"."+field
 }
 
-// freshMapCopyIn: inside fn the local `name` is a fresh copy of `<recv>.<field>` on every path:
-// it is defined exactly once, by `name := make(map…)` at the top level of the body, never assigned again, never
-// address-taken, and written only by the body `name[k] = v` of one top-level `for k, v := range <recv>.<field>`.
-func freshMapCopyIn(fset *token.FileSet, fn *ast.FuncDecl, name, recv, field string) bool {
-	defs, loops, otherWrites := 0, 0, 0
+// isMakeMap: `make(map[…]…[, n])`
+func isMakeMap(e ast.Expr) bool {
+	ce, ok := stripParens(e).(*ast.CallExpr)
+	if !ok || len(ce.Args) < 1 {
+		return false
+	}
+	if f, ok := ce.Fun.(*ast.Ident); !ok || f.Name != "make" {
+		return false
+	}
+	_, ok = ce.Args[0].(*ast.MapType)
+	return ok
+}
+
+// freshMapCopyIn: inside fn the map denoted by `target` (a local `m`, or a field `v.f` of the local holding the snapshot
+// literal) is a fresh copy of `<recv>.<field>` on every path: it is created exactly once by make(map…) — `target := make(..)` /
+// `target = make(..)` at the top level of the body, or (litMakes = 1) as the field value of the literal —, never assigned
+// again, never address-taken or delete()d from, and written only by the body `target[k] = v` of exactly one top-level
+// `for k, v := range <recv>.<field>`.
+func freshMapCopyIn(fset *token.FileSet, fn *ast.FuncDecl, target, recv, field string, litMakes int) bool {
+	defs, loops, otherWrites := litMakes, 0, 0
 	for _, st := range fn.Body.List {
 		switch s := st.(type) {
 		case *ast.AssignStmt:
-			if len(s.Lhs) == 1 && len(s.Rhs) == 1 {
-				if id, ok := s.Lhs[0].(*ast.Ident); ok && id.Name == name {
-					if s.Tok == token.DEFINE {
-						if ce, ok := s.Rhs[0].(*ast.CallExpr); ok {
-							if f, ok := ce.Fun.(*ast.Ident); ok && f.Name == "make" && len(ce.Args) >= 1 {
-								if _, ok := ce.Args[0].(*ast.MapType); ok {
-									defs++
-									continue
-								}
-							}
-						}
-					}
-					otherWrites++
+			if len(s.Lhs) == 1 && len(s.Rhs) == 1 && flat(fset, s.Lhs[0]) == target {
+				if isMakeMap(s.Rhs[0]) {
+					defs++
+					otherWrites-- // counted again by the inspection below
 				}
 			}
 		case *ast.RangeStmt:
@@ -238,45 +244,43 @@ func freshMapCopyIn(fset *token.FileSet, fn *ast.FuncDecl, name, recv, field str
 				v, ok2 := s.Value.(*ast.Ident)
 				as, ok3 := s.Body.List[0].(*ast.AssignStmt)
 				if ok1 && ok2 && ok3 && as.Tok == token.ASSIGN && len(as.Lhs) == 1 && len(as.Rhs) == 1 &&
-					flat(fset, as.Lhs[0]) == name+"["+k.Name+"]" && flat(fset, as.Rhs[0]) == v.Name {
+					flat(fset, as.Lhs[0]) == target+"["+k.Name+"]" && flat(fset, as.Rhs[0]) == v.Name {
 					loops++
+					otherWrites-- // counted again by the inspection below
 				}
 			}
 		}
 	}
-	// any other mention that writes the local anywhere in the function (nested assignment, index write, &name, var decl)
+	// every write of the target anywhere in the function (assignment, entry write, &target, var decl, delete)
 	ast.Inspect(fn.Body, func(n ast.Node) bool {
 		switch s := n.(type) {
 		case *ast.AssignStmt:
 			for _, l := range s.Lhs {
-				if id, ok := l.(*ast.Ident); ok && id.Name == name {
+				if flat(fset, l) == target {
 					otherWrites++
 				}
-				if ix, ok := l.(*ast.IndexExpr); ok {
-					if id, ok := ix.X.(*ast.Ident); ok && id.Name == name {
-						otherWrites++
-					}
+				if ix, ok := l.(*ast.IndexExpr); ok && flat(fset, ix.X) == target {
+					otherWrites++
 				}
 			}
 		case *ast.UnaryExpr:
-			if id, ok := s.X.(*ast.Ident); ok && s.Op == token.AND && id.Name == name {
+			if s.Op == token.AND && flat(fset, s.X) == target {
 				otherWrites += 10
 			}
 		case *ast.ValueSpec:
 			for _, nm := range s.Names {
-				if nm.Name == name {
+				if nm.Name == target {
 					otherWrites += 10
 				}
 			}
 		case *ast.CallExpr:
-			if f, ok := s.Fun.(*ast.Ident); ok && f.Name == "delete" && len(s.Args) > 0 && flat(fset, s.Args[0]) == name {
+			if f, ok := s.Fun.(*ast.Ident); ok && f.Name == "delete" && len(s.Args) > 0 && flat(fset, s.Args[0]) == target {
 				otherWrites += 10
 			}
 		}
 		return true
 	})
-	// the inspection above counts the definition and the loop's write once each
-	return defs == 1 && loops == 1 && otherWrites == 2
+	return defs == 1 && loops == 1 && otherWrites == 0
 }
 
 // isFreshMapCopyExpr: the expression (a field value of the snapshot literal inside fn) denotes a fresh copy of <recv>.<field>:
@@ -285,7 +289,7 @@ func freshMapCopyIn(fset *token.FileSet, fn *ast.FuncDecl, name, recv, field str
 func isFreshMapCopyExpr(fset *token.FileSet, funcs map[string]*ast.FuncDecl, fn *ast.FuncDecl, e ast.Expr, field string) bool {
 	switch x := stripParens(e).(type) {
 	case *ast.Ident:
-		return freshMapCopyIn(fset, fn, x.Name, recvName(fn), field)
+		return freshMapCopyIn(fset, fn, x.Name, recvName(fn), field, 0)
 	case *ast.CallExpr:
 		if len(x.Args) != 0 {
 			return false
@@ -319,7 +323,7 @@ func isFreshMapCopyExpr(fset *token.FileSet, funcs map[string]*ast.FuncDecl, fn 
 			}
 			return true
 		})
-		return ok2 && rets >= 1 && freshMapCopyIn(fset, h, local, recvName(h), field)
+		return ok2 && rets >= 1 && freshMapCopyIn(fset, h, local, recvName(h), field, 0)
 	}
 	return false
 }
@@ -403,9 +407,74 @@ func genStateAlias(repo string) (string, error) {
 	snapExprs, keyed2 := litFieldExprs(snapLit)
 	sdefs := singleDefs(snap)
 	mapFresh, memCloned, logsLen, refundVal, pushed := false, false, false, false, false
-	if keyed2 && nSnapLit == 1 && sr != "" {
+	// the local holding the literal (if any), and the fields set afterwards by `holder.f = e` at the top level of the body:
+	// the snapshot that is pushed has the literal's fields overridden by those assignments
+	holder := ""
+	for _, st := range snap.Body.List {
+		if as, ok := st.(*ast.AssignStmt); ok && as.Tok == token.DEFINE && len(as.Lhs) == 1 && len(as.Rhs) == 1 {
+			e := stripParens(as.Rhs[0])
+			if u, ok := e.(*ast.UnaryExpr); ok && u.Op == token.AND {
+				e = u.X
+			}
+			if id, ok := as.Lhs[0].(*ast.Ident); ok && e == ast.Expr(snapLit) {
+				holder = id.Name
+			}
+		}
+	}
+	fieldSetTwice := false
+	if keyed2 && holder != "" {
+		seen := map[string]bool{}
+		for _, st := range snap.Body.List {
+			as, ok := st.(*ast.AssignStmt)
+			if !ok || as.Tok != token.ASSIGN || len(as.Lhs) != 1 || len(as.Rhs) != 1 {
+				continue
+			}
+			sel, ok := as.Lhs[0].(*ast.SelectorExpr)
+			if !ok || flat(sfset, sel.X) != holder {
+				continue
+			}
+			if seen[sel.Sel.Name] {
+				fieldSetTwice = true
+			}
+			seen[sel.Sel.Name] = true
+			snapExprs[sel.Sel.Name] = as.Rhs[0]
+		}
+		// a field assignment that is not at the top level (conditional) is not understood
+		ast.Inspect(snap.Body, func(n ast.Node) bool {
+			as, ok := n.(*ast.AssignStmt)
+			if !ok {
+				return true
+			}
+			for _, l := range as.Lhs {
+				if sel, ok := l.(*ast.SelectorExpr); ok && flat(sfset, sel.X) == holder {
+					top := false
+					for _, st := range snap.Body.List {
+						if st == ast.Stmt(as) {
+							top = true
+						}
+					}
+					if !top {
+						fieldSetTwice = true
+					}
+				}
+			}
+			return true
+		})
+	}
+	if keyed2 && nSnapLit == 1 && sr != "" && !fieldSetTwice {
 		if e, ok := snapExprs["suicided"]; ok {
-			mapFresh = isFreshMapCopyExpr(sfset, sfuncs, snap, e, "Suicided")
+			if isMakeMap(e) && holder != "" {
+				// made in the literal (or by a field assignment) and filled through the holder: `holder.suicided[k] = v`
+				lit := 0
+				for _, el := range snapLit.Elts {
+					if kv, ok := el.(*ast.KeyValueExpr); ok && flat(sfset, kv.Key) == "suicided" && kv.Value == e {
+						lit = 1
+					}
+				}
+				mapFresh = freshMapCopyIn(sfset, snap, holder+".suicided", sr, "Suicided", lit)
+			} else {
+				mapFresh = isFreshMapCopyExpr(sfset, sfuncs, snap, e, "Suicided")
+			}
 		}
 		if e, ok := snapExprs["changes"]; ok {
 			memCloned = flat(sfset, stripParens(inlineLocals(e, sdefs))) == sr+".cacheDB.memdb.DeepClone()"
@@ -456,71 +525,159 @@ func genStateAlias(repo string) (string, error) {
 			}
 		}
 	}
-	var revSet []string
-	for _, st := range rev.Body.List {
-		if as, ok := st.(*ast.AssignStmt); ok && as.Tok == token.ASSIGN {
-			s := saNorm(sfset, as, ren)
-			s = strings.ReplaceAll(s, "recv.snapshots[idx].", "saved.")
-			revSet = append(revSet, s)
+	// straightLine: the body of h is nothing but top-level plain assignments
+	straightLine := func(h *ast.FuncDecl) bool {
+		if h == nil || h.Body == nil || len(h.Body.List) == 0 {
+			return false
 		}
+		for _, st := range h.Body.List {
+			as, ok := st.(*ast.AssignStmt)
+			if !ok || as.Tok != token.ASSIGN {
+				return false
+			}
+		}
+		return true
 	}
-	sort.Strings(revSet)
-	// anything else at the top level that is not the saved-local definition or a call (bounds check) is reported
-	var revOther []string
+	writesNothing := func(h *ast.FuncDecl) bool {
+		w := false
+		ast.Inspect(h.Body, func(n ast.Node) bool {
+			switch n.(type) {
+			case *ast.AssignStmt, *ast.IncDecStmt:
+				if as, ok := n.(*ast.AssignStmt); ok && as.Tok == token.DEFINE {
+					return true
+				}
+				w = true
+			}
+			return true
+		})
+		return !w
+	}
+	isBoundsCheck := func(s *ast.IfStmt) bool {
+		if s.Else != nil || !alwaysExits(s.Body.List) {
+			return false
+		}
+		if s.Init != nil {
+			if as, ok := s.Init.(*ast.AssignStmt); !ok || as.Tok != token.DEFINE {
+				return false
+			}
+		}
+		for _, b := range s.Body.List {
+			es, ok := b.(*ast.ExprStmt)
+			if !ok {
+				return false
+			}
+			ce, ok := es.X.(*ast.CallExpr)
+			if !ok || flat(sfset, ce.Fun) != "panic" {
+				return false
+			}
+		}
+		return true
+	}
+	var revSet, revOther []string
 	for _, st := range rev.Body.List {
 		switch s := st.(type) {
 		case *ast.AssignStmt:
 			if s.Tok == token.ASSIGN {
+				t := saNorm(sfset, s, ren)
+				revSet = append(revSet, strings.ReplaceAll(t, "recv.snapshots[idx].", "saved."))
 				continue
 			}
 			if s.Tok == token.DEFINE && len(s.Rhs) == 1 && flat(sfset, s.Rhs[0]) == rr+".snapshots["+idx+"]" {
 				continue
 			}
 		case *ast.IfStmt:
-			if alwaysExits(s.Body.List) && s.Else == nil && s.Init == nil {
-				onlyPanic := true
-				for _, b := range s.Body.List {
-					es, ok := b.(*ast.ExprStmt)
-					if !ok {
-						onlyPanic = false
-						continue
-					}
-					ce, ok := es.X.(*ast.CallExpr)
-					if !ok || flat(sfset, ce.Fun) != "panic" {
-						onlyPanic = false
-					}
-				}
-				if onlyPanic {
-					continue // the bounds check
-				}
+			if isBoundsCheck(s) {
+				continue
 			}
 		case *ast.ExprStmt:
-			// a call of a helper that contains no assignment (e.g. the extracted bounds check)
 			if ce, ok := s.X.(*ast.CallExpr); ok {
 				if h := calleeOf(sfuncs, ce); h != nil {
-					writes := false
-					ast.Inspect(h.Body, func(n ast.Node) bool {
-						switch n.(type) {
-						case *ast.AssignStmt, *ast.IncDecStmt:
-							writes = true
+					if writesNothing(h) {
+						continue // e.g. the extracted bounds check
+					}
+					// a straight-line helper or method (`saved.restore(recv)`, `recv.restoreFrom(saved)`): its assignments
+					// with its receiver / parameters replaced by the (normalised) receiver / arguments of the call
+					if straightLine(h) {
+						ren2 := map[string]string{}
+						okSub := true
+						if hr := recvName(h); hr != "" {
+							if sel, ok := ce.Fun.(*ast.SelectorExpr); ok {
+								ren2[hr] = strings.ReplaceAll(saNorm(sfset, sel.X, ren), "recv.snapshots[idx]", "saved")
+							} else {
+								okSub = false
+							}
 						}
-						return true
-					})
-					if !writes {
-						continue
+						var params []string
+						if h.Type.Params != nil {
+							for _, f := range h.Type.Params.List {
+								for _, nm := range f.Names {
+									params = append(params, nm.Name)
+								}
+							}
+						}
+						if len(params) != len(ce.Args) {
+							okSub = false
+						} else {
+							for i, pn := range params {
+								ren2[pn] = strings.ReplaceAll(saNorm(sfset, ce.Args[i], ren), "recv.snapshots[idx]", "saved")
+							}
+						}
+						for _, v := range ren2 { // only plain names may be substituted (no side effects, no precedence issues)
+							for _, c := range v {
+								if !(c == '_' || c == '.' || c >= 'a' && c <= 'z' || c >= 'A' && c <= 'Z' || c >= '0' && c <= '9') {
+									okSub = false
+								}
+							}
+						}
+						if okSub {
+							for _, hs := range h.Body.List {
+								revSet = append(revSet, saNorm(sfset, hs, ren2))
+							}
+							continue
+						}
 					}
 				}
 			}
 		}
 		revOther = append(revOther, saNorm(sfset, st, ren))
 	}
+	sort.Strings(revSet)
 
-	// ---- who writes .logs / .memdb / .Suicided in package storage: (function, kind)
-	kindOf := func(fset *token.FileSet, fd *ast.FuncDecl, lhs, rhs ast.Expr) string {
-		r := recvName(fd)
+	// ---- who writes .logs / .memdb / .Suicided in package storage: (exported entry point, kind of write).
+	// A write inside an unexported function or method is attributed to the exported functions that reach it.
+	snapFieldSet := map[string]bool{}
+	for _, f := range snapFields {
+		snapFieldSet[f[0]] = true
+	}
+	rootOf := func(e ast.Expr) string {
+		for {
+			switch x := e.(type) {
+			case *ast.SelectorExpr:
+				e = x.X
+			case *ast.IndexExpr:
+				e = x.X
+			case *ast.ParenExpr:
+				e = x.X
+			case *ast.StarExpr:
+				e = x.X
+			case *ast.Ident:
+				return x.Name
+			default:
+				return ""
+			}
+		}
+	}
+	pathOf := func(fset *token.FileSet, e ast.Expr) string { // the printed expression without its root identifier
+		s := flat(fset, e)
+		if r := rootOf(e); r != "" && strings.HasPrefix(s, r+".") {
+			return s[len(r)+1:]
+		}
+		return s
+	}
+	kindOf := func(fset *token.FileSet, lhs, rhs ast.Expr) string {
 		l := flat(fset, lhs)
 		if ix, ok := lhs.(*ast.IndexExpr); ok {
-			return "set-entry:" + strings.TrimPrefix(flat(fset, ix.X), r+".")
+			return "set-entry:" + pathOf(fset, ix.X)
 		}
 		switch x := stripParens(rhs).(type) {
 		case *ast.CallExpr:
@@ -528,25 +685,24 @@ func genStateAlias(repo string) (string, error) {
 			if f == "append" && len(x.Args) >= 1 && flat(fset, x.Args[0]) == l && !x.Ellipsis.IsValid() {
 				return "append"
 			}
-			if f == "make" && len(x.Args) >= 1 {
-				if _, ok := x.Args[0].(*ast.MapType); ok {
-					return "fresh-make"
-				}
+			if isMakeMap(x) {
+				return "fresh-make"
 			}
 		case *ast.SliceExpr:
 			if flat(fset, x.X) == l && x.Low == nil && x.High != nil && x.Max == nil {
 				return "truncate"
 			}
 		case *ast.SelectorExpr:
-			// a field of a local (the popped snapshot): `<local>.<field>`
-			if id, ok := x.X.(*ast.Ident); ok && id.Name != r {
+			// a field of the snapshot struct read from another variable than the one written: `<other>.<snapshot field>`
+			if id, ok := x.X.(*ast.Ident); ok && id.Name != rootOf(lhs) && snapFieldSet[x.Sel.Name] {
 				return "snapshot-field:" + x.Sel.Name
 			}
 		}
 		return "other:" + flat(fset, rhs)
 	}
-	collect := func(match func(l string) bool) [][2]string {
-		var out [][2]string
+	// distinct declarations and the exported entry points reaching each of them
+	var decls []*ast.FuncDecl
+	{
 		seen := map[*ast.FuncDecl]bool{}
 		var names []string
 		for n := range sfuncs {
@@ -554,30 +710,75 @@ func genStateAlias(repo string) (string, error) {
 		}
 		sort.Strings(names)
 		for _, n := range names {
-			fd := sfuncs[n]
-			if seen[fd] {
-				continue
+			if fd := sfuncs[n]; !seen[fd] {
+				seen[fd] = true
+				decls = append(decls, fd)
 			}
-			seen[fd] = true
-			r := recvName(fd)
+		}
+	}
+	callers := map[*ast.FuncDecl][]*ast.FuncDecl{}
+	for _, fd := range decls {
+		ast.Inspect(fd.Body, func(n ast.Node) bool {
+			if ce, ok := n.(*ast.CallExpr); ok {
+				if h := calleeOf(sfuncs, ce); h != nil && h != fd {
+					callers[h] = append(callers[h], fd)
+				}
+			}
+			return true
+		})
+	}
+	entriesOf := func(fd *ast.FuncDecl) []string {
+		out := map[string]bool{}
+		seen := map[*ast.FuncDecl]bool{}
+		var rec func(f *ast.FuncDecl)
+		rec = func(f *ast.FuncDecl) {
+			if seen[f] {
+				return
+			}
+			seen[f] = true
+			if ast.IsExported(f.Name.Name) || len(callers[f]) == 0 {
+				out[f.Name.Name] = true
+				return
+			}
+			for _, c := range callers[f] {
+				rec(c)
+			}
+		}
+		rec(fd)
+		var l []string
+		for k := range out {
+			l = append(l, k)
+		}
+		sort.Strings(l)
+		return l
+	}
+	collect := func(match func(path string) bool) [][2]string {
+		set := map[[2]string]bool{}
+		for _, fd := range decls {
 			ast.Inspect(fd.Body, func(nd ast.Node) bool {
 				as, ok := nd.(*ast.AssignStmt)
 				if !ok || len(as.Lhs) != len(as.Rhs) {
 					return true
 				}
 				for i, l := range as.Lhs {
-					ls := flat(sfset, l)
-					if r != "" {
-						ls = strings.TrimPrefix(ls, r+".")
+					if _, isIdent := l.(*ast.Ident); isIdent {
+						continue
 					}
-					if match(ls) {
-						out = append(out, [2]string{fd.Name.Name, kindOf(sfset, fd, l, as.Rhs[i])})
+					if match(pathOf(sfset, l)) {
+						k := kindOf(sfset, l, as.Rhs[i])
+						for _, en := range entriesOf(fd) {
+							set[[2]string{en, k}] = true
+						}
 					}
 				}
 				return true
 			})
 		}
-		sort.SliceStable(out, func(i, j int) bool {
+		var out [][2]string
+		for k := range set {
+			out = append(out, k)
+		}
+		sort.Slice(out, func(i, j int) bool {
 			if out[i][0] != out[j][0] {
 				return out[i][0] < out[j][0]
 			}
@@ -585,7 +786,9 @@ func genStateAlias(repo string) (string, error) {
 		})
 		return out
 	}
-	logsWrites := collect(func(l string) bool { return l == "logs" || strings.HasSuffix(l, ".logs") || strings.Contains(l, "logs[") })
+	logsWrites := collect(func(l string) bool {
+		return l == "logs" || strings.HasSuffix(l, ".logs") || strings.HasPrefix(l, "logs[") || strings.Contains(l, ".logs[")
+	})
 	memdbPtrWrites := collect(func(l string) bool { return l == "memdb" || strings.HasSuffix(l, ".memdb") })
 	suicidedWrites := collect(func(l string) bool {
 		return l == "Suicided" || strings.HasSuffix(l, ".Suicided") || strings.HasPrefix(l, "Suicided[") || strings.Contains(l, ".Suicided[")
